@@ -361,6 +361,13 @@ func TestSim(t *testing.T) {
 		t.Skip("VERIF_MODE not set")
 	}
 	slog.SetDefault(slog.New(slog.DiscardHandler))
+	// Unbounded recursion in the code under test ends in the runtime's "stack overflow" abort either
+	// way; with the default limit of 1 GB per goroutine it takes minutes to get there, with 32 MB
+	// (far more than any run needs) a second.
+	debug.SetMaxStack(32 << 20)
+	if os.Getenv("VERIF_DEBUG") != "" {
+		fmt.Fprintf(os.Stderr, "zzsim: goroutine id offset %d\n", zzsim.GoidOffset())
+	}
 	defer func() {
 		if runBase != "" {
 			os.RemoveAll(runBase)
@@ -400,6 +407,7 @@ func batch(t *testing.T) {
 	out := os.Getenv("VERIF_OUT")
 	replayDir := os.Getenv("VERIF_REPLAY_DIR")
 	minBudget := int(envInt("VERIF_MIN_BUDGET", 200))
+	trackCurrent := os.Getenv("VERIF_TRACK_CURRENT")
 
 	sum := &Summary{Scenarios: scNames, Faults: map[string]int{}, Probes: map[string]int{}, Ends: map[string]int{}, OtherRules: map[string]int{}}
 	traces := map[uint64]bool{}
@@ -420,6 +428,13 @@ func batch(t *testing.T) {
 		}
 		currentSeed = seed
 		plan := sc.Gen(planSeedRng(seed), tier)
+		if trackCurrent != "" {
+			// what this process is about to run: if the code under test aborts the process (a runtime
+			// fatal error cannot be recovered), the check knows which run did it
+			cj, _ := json.Marshal(plan)
+			cb, _ := json.Marshal(ReplayFile{Property: prop, Scenario: sc.Name, Seed: seed, Tier: tier, Plan: cj})
+			os.WriteFile(trackCurrent, cb, 0o644)
+		}
 		res := runScenario(t, sc, plan, Ctl{Seed: seed})
 		if sum.Runs == 0 {
 			sum.FirstSeed = seed
